@@ -34,7 +34,12 @@ def validate_decoded(iterable):
       .format(iterable.__class__.__name__)+
       "(accepted classes: str, list)")
   for elem in iterable:
-    elem = gfapy.OrientedLine(elem)
+    try:
+      elem = gfapy.OrientedLine(elem)
+    except IndexError as err:
+      raise gfapy.ValueError(
+        "the list contains the element {}\n".format(repr(elem))+
+        "(it does not consist of a segment and an orientation)") from err
     elem.validate()
     if not re.match(r"^[!-)+-<>-~][!-~]*\Z", elem.name):
       raise gfapy.FormatError(
